@@ -39,7 +39,7 @@ pub fn plan(quick: bool) -> Vec<Part> {
 }
 
 pub fn finalize(_tier: &str, rep: &mut Report) {
-    rep.rule = "every read set of the listed families x {stranded, unstranded} x label assignment {all reads one colour, read i has colour i mod 2} on pruned tables; entry points compress_kmers_with_hash / compress_kmers (always-true join) / compress_kmers with the payload-equality predicate / compress_kmers_no_exts / one-k-mer-per-node graph (both node orders) -> compress_graph; oracle = equality of the node partition with the union-find components of joinable links of the reference (is_compressed is never consulted); non-trivial as for C01 plus colour boundaries inside unbranched paths and isolated cycles".into();
+    rep.rule = "every read set of the listed families x {stranded, unstranded} x label assignment {all reads one colour, read i has colour i mod 2} on pruned tables; entry points compress_kmers_with_hash / compress_kmers (always-true join) / compress_kmers with the payload-equality predicate / with a harness predicate on per-k-mer ids that refuses a third of the joins / compress_kmers_no_exts / one-k-mer-per-node graph (both node orders) -> compress_graph; oracle = equality of the node partition with the union-find components of joinable links of the reference (is_compressed is never consulted); non-trivial as for C01 plus colour boundaries inside unbranched paths and isolated cycles".into();
     rep.assumptions.push("K >= 8 k-mer types are covered by the structure catalogue only (content not exhaustive)".into());
     for f in ["palindromic_kmer", "self_link_or_hairpin", "branch", "multi_kmer_unitig", "isolated_cycle"] {
         rep.floor(&format!("R1+RT@K4:{}", f), 1);
@@ -103,6 +103,23 @@ pub fn run<K: Kmer + Send + Sync>(c: &GCase) -> Outcome {
         let kd: Vec<(K, u16)> = pruned.iter().map(|(k, (_, d))| (*k, *d)).collect();
         let (_, gv) = finish_view(compress_kmers_no_exts(c.stranded, &sum_spec(), &kd));
         note(&mut o, "compress_kmers_no_exts", check_maximal(&gv, &tk, &always));
+    }
+    // a predicate on per-k-mer ids that refuses about a third of the joins (also inside single reads)
+    {
+        struct IdSpec;
+        impl CompressionSpec<u32> for IdSpec {
+            fn reduce(&self, a: u32, _b: &u32) -> u32 {
+                a
+            }
+            fn join_test(&self, a: &u32, b: &u32) -> bool {
+                (a + b) % 3 != 0
+            }
+        }
+        let ids: std::collections::BTreeMap<S, u32> = pruned.iter().enumerate().map(|(i, (k, _))| (kstr(k), i as u32)).collect();
+        let tab_ids: Tab<K, u32> = pruned.iter().enumerate().map(|(i, (k, (e, _)))| (*k, (*e, i as u32))).collect();
+        let id_join = |a: &S, b: &S| (ids[a] + ids[b]) % 3 != 0;
+        let (_, gv) = finish_view(compress_kmers(c.stranded, &IdSpec, &tab_ids));
+        note(&mut o, "compress_kmers/id-predicate", check_maximal(&gv, t, &id_join));
     }
     // colour predicate
     {
